@@ -118,6 +118,47 @@ class BudgetedStream(io.BytesIO):
         return super(BudgetedStream, self).read(*args)
 
 
+def open_stream(data, how=None):
+    """Streams a caller may hand to the reader.
+
+    how: None -> BytesIO; ('buffered', n) -> io.BufferedReader over BytesIO
+    with an n-byte buffer; ('offset', k) -> BytesIO positioned after k junk
+    bytes; ('file',) -> a real file opened 'rb' (caller closes/unlinks via
+    stream.close())."""
+    if not how:
+        return io.BytesIO(data)
+
+    if how[0] == 'buffered':
+        return io.BufferedReader(io.BytesIO(data), buffer_size=how[1])
+
+    if how[0] == 'offset':
+        s = io.BytesIO(b'\xff' * how[1] + data)
+        s.seek(how[1])
+        return s
+
+    if how[0] == 'file':
+        import tempfile
+        fp = tempfile.TemporaryFile()
+        fp.write(data)
+        fp.seek(0)
+        return fp
+
+    raise ValueError(how)
+
+
+def read_records_from(stream):
+    ns = load()
+    records = []
+
+    try:
+        for rec in ns.DiffXReader(stream):
+            records.append(rec)
+    except Exception as e:
+        return records, e
+
+    return records, None
+
+
 def read_records(data, budget=True):
     """Run the streaming reader; return (records, exception or None).
 
